@@ -167,6 +167,53 @@ def damaged_models(rng, quick):
     # a flat cut surface (exactly coplanar, non adjacent triangles) after a generic rotation: valid model, must pass
     R = models.rational_quaternion(rng, den=7)
     out.append(("rotated-flat-cut", models.move_model(models.split_hemispheres(1.0, [1.2], (1.0, 0.33), [0.5], level=1), R=R, t=(0.1, -0.2, 0.05)), None, None, dict(self=1, nosnap=1)))
+    # structured dipole sets on the clean model: source grids stored x-, y- and z-fastest that leave the inner compartment,
+    # repeated positions, rows sharing two of the three coordinates - first rows inside, later ones outside, and the reverse
+    ins = [-0.2, 0.0, 0.15]; cross = [0.0, 0.2, 0.65, 0.7]           # |p| <= 0.3: inside the inner shell; >= 0.6: between the shells
+    def grid(fast):
+        rows = []
+        for u in ins[:2]:
+            for v in ins[1:]:
+                for w in cross:
+                    q = {0: (w, u, v), 1: (u, w, v), 2: (u, v, w)}[fast]; rows.append(q)
+        return rows
+    sets = [("grid-x-fastest", grid(0)), ("grid-y-fastest", grid(1)), ("grid-z-fastest", grid(2)),
+            ("grid-z-fastest-reversed", list(reversed(grid(2)))),
+            ("repeated-position-inside", [(0.1, 0.05, 0.0)] * 3 + [(0.0, 0.1, -0.1)] * 2),
+            ("repeated-position-then-outside", [(0.1, 0.05, 0.0)] * 3 + [(0.1, 0.05, 0.65)]),
+            ("outside-then-same-xy-inside", [(0.1, 0.05, 0.7), (0.1, 0.05, 0.0), (0.1, 0.05, 0.1)]),
+            ("same-xz-inside-then-outside", [(0.1, 0.0, 0.05), (0.1, 0.66, 0.05)]),
+            ("same-yz-inside-then-outside", [(0.0, 0.1, 0.05), (0.68, 0.1, 0.05)]),
+            ("same-xy-inside-then-outside", [(0.05, 0.1, 0.0), (0.05, 0.1, 0.66)]),
+            ("all-inside-columns", [(u, v, w) for u in ins for v in ins[:2] for w in ins])]
+    for nm_, rows in sets:
+        allin = all(math.sqrt(sum(c * c for c in q)) <= 0.39 for q in rows)     # inradius of the inner icosahedron: 0.397
+        out.append(("dipoles:" + nm_, base(), None, rows, dict(self=1, inner=1 if allin else 0, diponly=1)))
+    # conductivity patterns: each mesh in turn bounded by two non-conductive domains (isolated) or by one (current barrier);
+    # clean and self-intersecting (a vertex slid across its neighbour) variants; loaded with and without the .cond file,
+    # through Geometry::selfCheck, om_check_geom and om_assemble -HM
+    patterns = {"usual": {}, "outer-isolated": {"D2": 0.0}, "middle-isolated": {"D1": 0.0, "D2": 0.0, "Air": 1.0} , "inner-isolated": {"D0": 0.0, "D1": 0.0},
+                "barrier-D1": {"D1": 0.0}, "barrier-D0": {"D0": 0.0}}
+    # shells far apart and each rotated differently (no homothetic copies: generic mutual position), so that folding one
+    # shell creates a self-intersection of that shell ONLY
+    rots = [models.rational_quaternion(rng, den=5) for _ in range(3)]
+    def gbase():
+        m = models.nested([0.2, 0.6, 1.8], [1.0, 0.0125, 1.0], level=lvl)
+        m["meshes"] = [(n, [models.apply_R(rots[k], v) for v in vs], ts) for k, (n, vs, ts) in enumerate(m["meshes"])]
+        return m
+    folded = {}
+    for dmg in (0, 1, 2):
+        n, vs, ts = gbase()["meshes"][dmg]; vs = list(vs)
+        k = rng.randrange(len(vs)); j = [b for t in ts if k in t for b in t if b != k][0]
+        vs[k] = tuple(vs[j][c] + 0.7 * (vs[j][c] - vs[k][c]) for c in range(3)); folded[dmg] = (n, vs, ts)
+    plan = {"usual": (0, 1, 2), "outer-isolated": (None, 0, 1, 2), "middle-isolated": (None, 0, 1, 2), "inner-isolated": (None, 0),
+            "barrier-D1": (None, 1), "barrier-D0": (None,)}
+    if not quick: plan = {k: (None, 0, 1, 2) for k in plan}; plan["usual"] = (0, 1, 2)
+    for pn, over in patterns.items():
+        for dmg in plan[pn]:
+            m = gbase(); m["cond"] = dict(m["cond"]); m["cond"].update(over)
+            if dmg is not None: m["meshes"][dmg] = folded[dmg]
+            out.append(("cond:%s:%s" % (pn, "clean" if dmg is None else "mesh%d-folded" % dmg), m, None, None, dict(self=1 if dmg is None else 0, hm=1, only_self=dmg)))
     # non nested models: mesh/mesh intersections are not examined by selfCheck; dipoles are refused
     out.append(("siblings-clean", models.inclusions(1.0, [((0.45, 0, 0), 0.3, 1.0), ((-0.45, 0.1, 0), 0.3, 0.33)], 1.0, level=lvl), None, inner_dips(2, 0.2), dict(self=1, inner=0)))
     return out
@@ -216,6 +263,18 @@ def run_tool(bdir, info):
     if info["extra"] is not None: cmd += ["-m", os.path.join(info["dir"], "extra.tri")]
     if info["ndips"] is not None: cmd += ["-d", os.path.join(info["dir"], "dip.txt")]
     p = subprocess.run(cmd, stdout=subprocess.DEVNULL, stderr=subprocess.DEVNULL, timeout=300)
+    return p.returncode
+
+def run_assemble(bdir, info):
+    exe = os.path.join(bdir, "apps", "om_assemble")
+    if not os.path.exists(exe): return None
+    outp = os.path.join(info["dir"], "hm.bin")
+    e = dict(os.environ); e["OMP_NUM_THREADS"] = "1"; e["OPENBLAS_NUM_THREADS"] = "1"
+    try:
+        p = subprocess.run([exe, "-HM", os.path.join(info["dir"], "model.geom"), os.path.join(info["dir"], "model.cond"), outp],
+                           stdout=subprocess.DEVNULL, stderr=subprocess.DEVNULL, timeout=300, env=e)
+    except subprocess.TimeoutExpired:
+        return "timeout"
     return p.returncode
 
 # ------------------------------------------------------------------ main
@@ -335,9 +394,11 @@ def main(replay=None):
                     ck.violation("Interface::contains: wrong answer on a closed surface", "Interface::contains answers %d for a point that is %s the closed surface by construction (%s): `%s`" % (z[1], "inside" if exp else "outside", kind, c[:300]),
                                  dict(kind="property", fcases=[c]))
     # ---- geometry level
-    gstats = []
+    gstats = []; mcache = {}
     if not replay or rp.get("geom"):
-        todo = damaged_models(ck.rng, quick)
+        import random as _random
+        grng = _random.Random((int(rp.get("seed", ck.seed)) if replay else ck.seed) * 7919 + 12)
+        todo = damaged_models(grng, quick)
         if replay: todo = [t for t in todo if t[0] in rp.get("geom", [])]
         for gid, (name, m, extra, dips, expect) in enumerate(todo):
             if expect.get("nosnap"):
@@ -348,17 +409,33 @@ def main(replay=None):
                 if z[0] != 0 or z[2] != expect["self"]:
                     ck.violation("geometry checks: " + name, "generated model `%s` (valid by construction): selfCheck/harness gives %s" % (name, z[:3]), dict(kind="geometry", geom=[name]))
                 continue
-            info = write_geom_case(ck.rng, gid, ck.workdir, m, extra, dips)
+            info = write_geom_case(grng, gid, ck.workdir, m, extra, dips)
             rc, out, err = core.run_harness(hb, ["c12 13 %d" % gid], ck.workdir, tag="geom")
             z = [int(x) for x in out[0].split()] if out and not out[0].startswith("CRASH") else [-9]
             if z[0] != 0:
                 ck.violation("geometry case could not be run: " + name, "harness status %s on generated model %s" % (z, name), dict(kind="harness", geom=[name]), found_input=False); continue
             nested, selfc, chk, inner, nd = z[1], z[2], z[3], z[4], z[5]; flags = z[6:6 + nd]
-            ml = model_geom_line(gid, info, nested, flags)
-            mz = [int(x) for x in core.run_model([ml])[0].split()]
+            if expect.get("diponly"):      # the clean base model: only the dipole part is of interest; model without meshes
+                ml = model_geom_line(gid, dict(info, V=[], meshes=[]), nested, flags)
+            else:
+                ml = model_geom_line(gid, info, nested, flags)
+            mkey = " ".join(ml.split()[:2] + ml.split()[3:])      # the model line without the case number
+            if mkey not in mcache: mcache[mkey] = [int(x) for x in core.run_model([ml])[0].split()]
+            mz = mcache[mkey]
             tool = run_tool(bdir, info)
             gstats.append(dict(name=name, nested=nested, selfCheck=selfc, check=chk, check_inner=inner, tool_exit=tool, model=mz[1:]))
             msgs = []
+            if not expect.get("diponly"):
+                # the same geometry loaded WITHOUT conductivities (as om_check_geom does): the model has no index / flag input at all
+                rc2, out2, _e2 = core.run_harness(hb, ["c12 13 %d 0" % gid], ck.workdir, tag="geom")
+                z2 = [int(x) for x in out2[0].split()] if out2 and not out2[0].startswith("CRASH") else [-9]
+                gstats[-1]["selfCheck_without_cond"] = z2[2] if z2[0] == 0 else z2
+                if z2[0] != 0 or z2[2] != mz[1]: msgs.append("selfCheck of the geometry loaded without conductivities returns %s, model %d" % (z2[2] if z2[0] == 0 else z2, mz[1]))
+            if expect.get("hm"):
+                hm = run_assemble(bdir, info)
+                gstats[-1]["om_assemble_HM_exit"] = hm
+                want = 0 if mz[1] == 1 else 1
+                if hm is not None and hm != want: msgs.append("om_assemble -HM exits %s, model %d (selfCheck %s)" % (hm, want, "passes" if mz[1] else "fails"))
             if mz[1] != selfc: msgs.append("selfCheck returns %d, model %d" % (selfc, mz[1]))
             if mz[2] != chk: msgs.append("check(mesh) returns %d, model %d" % (chk, mz[2]))
             if info["ndips"] is not None and mz[3] != inner: msgs.append("check_inner returns %d, model %d" % (inner, mz[3]))
@@ -368,7 +445,12 @@ def main(replay=None):
             if "mesh" in expect and chk != expect["mesh"]: msgs.append("check(mesh) returns %d, expected %d by construction" % (chk, expect["mesh"]))
             if "inner" in expect and inner != expect["inner"]: msgs.append("check_inner returns %d, expected %d by construction" % (inner, expect["inner"]))
             if msgs:
-                ck.violation("geometry checks: " + name, "generated model `%s`: %s" % (name, "; ".join(msgs)), dict(kind="geometry", geom=[name], cases=[ml[:2000]]))
+                files = {}
+                for fn in sorted(os.listdir(info["dir"])):
+                    if fn.endswith((".geom", ".cond", ".tri", ".txt")): files[fn] = open(os.path.join(info["dir"], fn)).read()
+                ck.violation("geometry checks: " + name, "generated model `%s`: %s" % (name, "; ".join(msgs)),
+                             dict(kind="geometry", geom=[name], cases=[ml[:2000]], files=files, dipoles=dips,
+                                  commands=["om_check_geom -g model.geom [-m extra.tri] [-d dip.txt]", "om_assemble -HM model.geom model.cond hm.bin"]))
     ck.cov.update(evaluations=len(cases) + len(gstats), distinct_nontrivial=len(set(cases)) + len(gstats),
                   rule="distinct case lines; triangle pairs aimed at the branches of the decision tree (plane rejections, canonical permutations, coplanar fallback with its three projections, touching configurations); soups for the loops; generated clean/damaged head models",
                   samples=cases[len(cases) // 2:len(cases) // 2 + 2], op_distribution=dist, triangle_pairs=stats["pairs"],
